@@ -145,6 +145,9 @@ def random_scene(
     must_have=(),
     allow_tfsf=True,
     spacing=None,
+    dispersive_prob=0.0,
+    first_source=None,
+    plane_prob=0.45,
 ):
     """Returns (scene, tags) — tags is a dict of class labels used for coverage signatures."""
     step = 2 if even else 1
@@ -153,7 +156,8 @@ def random_scene(
         cands = [n for n in range(size_lo, size_hi + 1) if n % step == 0 and (a != 0 or n % x_multiple == 0)]
         shape.append(int(cands[_int(rng, 0, len(cands) - 1)]))
     if spacing is None:
-        spacing = float(rng.choice([20e-9, 37.5e-9, 50e-9, 1e-7]))
+        # round values and values that are not multiples of any decimal unit
+        spacing = float(rng.choice([20e-9, 37.5e-9, 50e-9, 1e-7])) if rng.random() < 0.5 else float(rng.uniform(15e-9, 120e-9))
     T = _int(rng, steps[0], steps[1])
     s = scenes.default_scene(shape=shape, steps=T, spacing=spacing)
     s["faces"] = random_faces(rng, shape)
@@ -169,6 +173,17 @@ def random_scene(
     mats, mat_classes = [], []
     for i in range(_int(rng, 1, 2)):
         m, cls = random_material(rng)
+        if rng.random() < dispersive_prob:
+            # modest Lorentz / Drude pole around the source band; the Courant factor is lowered because
+            # the coupled stability bound of dispersive media leaves no head-room at 0.99
+            w = 2 * np.pi * 299792458.0 / lam0
+            if rng.random() < 0.5:
+                pole = {"kind": "lorentz", "w0": float(w * rng.uniform(0.5, 1.5)), "gamma": float(w * rng.uniform(0.05, 0.3)), "deps": float(rng.uniform(0.5, 2.0))}
+            else:
+                pole = {"kind": "drude", "wp": float(w * rng.uniform(0.3, 1.0)), "gamma": float(w * rng.uniform(0.05, 0.3))}
+            m = {"eps": float(rng.uniform(1.5, 4.0)), "dispersion": {"poles": [pole]}}
+            cls = pole["kind"]
+            s["courant"] = 0.6
         lo, hi = _rand_box(rng, [0, 0, 0], shape, min_size=(1, 1, 1), max_size=(5, 5, 5))
         mats.append({"lo": lo, "hi": hi, "mat": m, "order": i, "name": f"mat{i}"})
         mat_classes.append(cls)
@@ -183,6 +198,13 @@ def random_scene(
     while len(srcs) < n_src and tries < 60:
         tries += 1
         u = rng.random()
+        want = first_source if (first_source is not None and not srcs and tries < 40) else None
+        if want == "dipole":
+            u = 0.0
+        elif want in ("uniform", "gaussian"):
+            u = 0.45
+        elif want == "tfsf":
+            u = 2.0
         lam = lam0 * float(rng.uniform(0.8, 1.25))
         prof = None
         v = rng.random()
@@ -203,7 +225,7 @@ def random_scene(
             if rng.random() < 0.3:
                 d["amplitude"] = float(rng.uniform(0.3, 3.0))
             tag = f"dipole-{st}"
-        elif u < 0.9 or not allow_tfsf:
+        elif u < 0.45 + plane_prob or not allow_tfsf:
             ax = _int(rng, 0, 2)
             full = rng.random() < 0.5
             lo, hi = [0, 0, 0], [0, 0, 0]
@@ -221,6 +243,8 @@ def random_scene(
             if any(_overlap(lo, hi, *b) for b in aniso_boxes):
                 continue
             gauss = rng.random() < 0.4
+            if want in ("uniform", "gaussian"):
+                gauss = want == "gaussian"
             d = {
                 "kind": "gaussian" if gauss else "uniform",
                 "lo": lo,
@@ -311,8 +335,9 @@ def random_scene(
         "faces": ",".join(_face_tag(s["faces"][f]) for f in scenes.FACES),
         "bg": bg_cls,
         "mats": "+".join(sorted(mat_classes)),
-        "srcs": "+".join(sorted(src_classes)),
+        "srcs": ",".join(sorted(src_classes)),
         "dets": sorted(det_classes),
+        "det_by_name": {d["name"]: t for d, t in zip(dets, det_classes)},
     }
     return s, tags
 
